@@ -17,15 +17,21 @@
                       copied raw from the source)
         src, dec,     classes ("lt","gt","amp","quot","apos") of the markup-significant characters of the payload
                       as sent / of the character data decoded between the markers (witnesses, drift)
+        prior         HTTP/1: what the harness's response reader found in front of the page on the client connection:
+                      "none" | "complete" (only complete responses) | "open" (the page's bytes lie inside / behind a
+                      response that is not finished, i.e. they are not a response of their own)
         parsed, has_len, chunked, delta, closed      HTTP/1 only: the reference reader parsed a status line and
                       header block; a single valid Content-Length is present; Transfer-Encoding: chunked;
                       delta = bytes sent after the header block minus the declared length (0: exact); the
                       connection was closed right after the response ]
+     [k |-> "resp", status, complete]   any other response the reader finds on the client connection (interim 100,
+        relayed upstream responses); complete = fully framed.  No obligations; they give the history.
      [k |-> "input", site, proto, srck, src, lines] (scenario description; lines = number of lines of the payload, > 1
      when it contains LF / CRLF; size = 0 short, 1 reflected text > 16 KiB, 2 > 64 KiB) and [k |-> "end"] carry no obligations.                   *)
 EXTENDS Verif
 
-MonInit == [bad |-> <<>>, wit |-> {}, pages |-> 0, lines |-> 1, size |-> 0]
+MonInit == [bad |-> <<>>, wit |-> {}, pages |-> 0, lines |-> 1, size |-> 0, open |-> FALSE, interim |-> FALSE,
+            done |-> 0]
 
 IsHtml(ev) == ev.html0 \/ ev.ctype = "html"
 
@@ -43,6 +49,8 @@ Clause(m, ev) ==
   ELSE IF ev.nlt # ev.nlt0 THEN <<"C12.unescaped_reflection", "raw_lt", ev.srck, ev.proto>>
   ELSE IF ev.inner # <<>> THEN <<"C12.unescaped_reflection", "reference", ev.srck, ev.proto>>
   ELSE IF ev.ctype # "html" THEN <<"C12.no_html_content_type", ev.ctype, ev.proto>>
+  ELSE IF ev.proto = "h1" /\ Get(ev, "prior", "none") = "open"
+       THEN <<"C12.h1_bad_framing", "inside_other_response">>   \* not a response: bytes inside an unfinished one
   ELSE IF ev.proto = "h1" /\ ~Framed(ev)
        THEN <<"C12.h1_bad_framing",
               IF ~ev.parsed THEN "unparsable" ELSE IF ev.has_len \/ ev.chunked THEN "length_mismatch" ELSE "unterminated">>
@@ -70,8 +78,18 @@ MonStep(m, ev) ==
                            \cup (IF IsHtml(ev) /\ ev.refl /\ ev.proto = "h1" /\ ev.has_len /\ ev.delta = 0
                                  THEN (IF m.size = 1 THEN {"long16_h1_exact"} ELSE IF m.size = 2 THEN {"long64_h1_exact"} ELSE {})
                                  ELSE {})
-                           \cup (IF IsHtml(ev) /\ ev.refl /\ ev.proto = "h2" /\ m.size = 1 THEN {"long16_h2_page"} ELSE {})]
-  ELSE IF ev.k = "end" /\ m.pages = 0 THEN [m EXCEPT !.wit = @ \cup {"no_page"}]
+                           \cup (IF IsHtml(ev) /\ ev.refl /\ ev.proto = "h2" /\ m.size = 1 THEN {"long16_h2_page"} ELSE {})
+                           \cup (IF IsHtml(ev) /\ m.done > 0 /\ Get(ev, "prior", "none") = "complete"
+                                 THEN {"page_after_complete_exchange"} ELSE {})
+                           \cup (IF IsHtml(ev) /\ m.done > 0 /\ m.interim /\ Get(ev, "prior", "none") = "complete"
+                                 THEN {"page_after_earlier_interim"} ELSE {})]
+  ELSE IF ev.k = "resp"
+    THEN [m EXCEPT !.open = ~ev.complete, !.interim = @ \/ ev.status = 100,
+                   !.done = IF ev.complete /\ ev.status >= 200 THEN @ + 1 ELSE @]
+  ELSE IF ev.k = "end"
+    THEN [m EXCEPT !.wit = @ \cup (IF m.pages = 0 THEN {"no_page"} ELSE {})
+                              \cup (IF m.open /\ m.pages = 0 THEN {"fault_after_head_closed_only"} ELSE {})
+                              \cup (IF m.open /\ m.pages = 0 /\ m.interim THEN {"fault_after_interim_and_head"} ELSE {})]
   ELSE m
 Wit(m) == m.wit
 =============================================================================
